@@ -50,6 +50,6 @@ def resolver(p: Project, modname: str, ci: Optional[ClassInfo] = None, private_o
     return res
 
 
-def flat(p: Project, modname: str, fn, ci: Optional[ClassInfo] = None, keep: Iterable[str] = (), depth: int = 2):
+def flat(p: Project, modname: str, fn, ci: Optional[ClassInfo] = None, keep: Iterable[str] = (), depth: int = 4):
     keepset = set(keep)
     return canon.canonical(fn, resolver(p, modname, ci, scope_fn=fn), keep=lambda n: n in keepset, depth=depth)
